@@ -12,6 +12,7 @@ mod dispatch;
 mod wm;
 mod join;
 mod misc;
+mod ckstore;
 
 fn main() {
     let args: Vec<String> = std::env::args().collect();
@@ -39,6 +40,7 @@ fn main() {
         "wm-record" => wm::record(rest),
         "join-replay" => join::replay(rest),
         "value-eq" => misc::value_eq(rest),
+        "ckstore-replay" => ckstore::replay(rest),
         "for-expand" => misc::for_expand(rest),
         "event-file" => misc::event_file(rest),
         other => {
